@@ -8,7 +8,9 @@ pub mod c09;
 pub mod c10;
 pub mod c11;
 pub mod c12;
+pub mod c16;
 pub mod lincheck;
+pub mod macro_table;
 pub mod solvers;
 pub mod c05;
 
@@ -24,6 +26,7 @@ pub fn dispatch(id: &str, args: &RunArgs) -> i32 {
         "C10" => run(&c10::C10, args),
         "C11" => run(&c11::C11, args),
         "C12" => run(&c12::C12, args),
+        "C16" => run(&c16::C16, args),
         "C03" => run(&c03::C03, args),
         "C04" => run(&c04::C04, args),
         "C05" => run(&c05::C05, args),
